@@ -116,6 +116,28 @@ PROPS = {
                 "{direct,reverse}: exact correspondence of the selected ranges + mass bracket + footprint inclusion on the implementation output. distinct_nontrivial = distinct op lines with a non-empty map.",
         "explanation": "theorems: accumulation loops = maximal prefix, sub-cell loop = Euclidean division, descent total on dyadic values; correspondence + exact mass check",
     },
+    "C14": {
+        "needs_bins": True,
+        "trusted_base": COMMON_TB + ["the real `mocset` binary is rebuilt from /repo and driven as a process; exit status, `list` stdout, file bytes and `extract` output are what is observed"],
+        "assumptions": COMMON_ASSUME + ["the model is the abstract registry (ordered entries); the byte layout of the file is not modelled (byte sizes are)",
+            "an unknown identifier in chgstatus is reported by a WARNING on stderr with exit status 0 (as the code does); `report failure` is read as that warning"],
+        "rule": "random command histories (make, then 3..10 of append / chgstatus / purge / update-while-locked) over a population of 8 identifiers, valid and deprecated (negative) ids, MOCs of "
+                "shallow (<=13, 32-bit storage) and deep (64-bit) depths, empty MOCs, FITS inputs on 32 and 64 bits; one history out of 6 fills an n128=1 file completely (127 slots) and then "
+                "appends / changes status. After EVERY command: exit status + all `list` rows against the model; refused commands must leave the file bytes unchanged; no lock left behind; at "
+                "the end `extract` of every live id must equal the MOC added under it. distinct_nontrivial = distinct (history prefix) op lines with more than one command.",
+        "explanation": "theorems on the reference state machine (refusal leaves state unchanged, append iff id not live and not full, uniqueness of live ids, purge, list, extract); correspondence with the real binary after every command",
+    },
+    "C15": {
+        "needs_bins": True,
+        "trusted_base": COMMON_TB + ["the real `mocset query` binary, driven as a process; region MOCs are given as ASCII files"],
+        "assumptions": COMMON_ASSUME + ["cone / position queries go through cdshealpix geometry and are not generated here (the region-MOC path exercises the same selection code)",
+            "the `union` command is not driven yet"],
+        "rule": "moc-sets of 3..6 MOCs stored at depths 11..16 around a common area (32- and 64-bit storage, valid and deprecated); query regions = 1 or 2 cells at depths 12..16 anchored on the "
+                "start, the end, the middle and the last index of a stored range, shifted by -1/0/+1 cell (regions smaller than and strictly inside one depth-13 cell, touching only the first or "
+                "last cell, just outside) x {intersect, included} x {with/without deprecated} x {sequential, -p 3}; ids compared as sorted sets with the specification msQuery. "
+                "distinct_nontrivial = distinct op lines.",
+        "explanation": "theorems: predicates = set semantics; degrading the region to the storage depth is exact for intersection and inclusion for every region; counterexample for the original flooring",
+    },
 }
 
 
